@@ -388,6 +388,12 @@ impl<T: Payload> Ctx<T> {
     /// End of the thread: futures (slot order), sender handles (top first),
     /// receiver handles (top first) — the order the model uses.
     pub fn finish(&mut self) {
+        let begin = stamp();
+        self.finish_inner();
+        hist::push_thread_end(self.t, begin, stamp());
+    }
+
+    fn finish_inner(&mut self) {
         for i in 0..4 {
             let f = std::mem::replace(&mut self.futs[i], FutI::Empty);
             drop(f);
